@@ -9,6 +9,45 @@ loop vs comprehension and keyword order are invisible at this level.
 
 Three verdicts per comparison: the term equals the demanded one -> discharged; the term is completely understood and
 differs -> violated; the term contains a part the evaluator cannot model (`opaque`) -> undecided.
+
+Technique
+---------
+(numbers = the ALLOWED devices of RULES_GUIDE.md, "What counts as *static* here").  Nothing in this module runs analysed
+code on data: `_Sym` only *builds terms* - it substitutes reaching definitions (3), projects components of tuple /
+`partition` terms by the constant indices and constant slices the analysed code itself writes (a structural rule on
+terms: `(a, b, c)[::2]` is `(a, c)`), folds constant expressions (6), resolves callees (1), and models a dict-filling
+for-loop or comprehension **once** with its element as the symbolic marker `$` (3, no unrolling).  No byte string,
+start line, header block, length or number is ever chosen by the checker; branch outcomes stay symbolic (`phi`).
+
+* `_Sym` (shared): 1 (resolved callees, constructor classes), 3 (reaching definitions -> terms, tuple unpacking, loop body
+  once with symbolic element), 6 (constant folding, e.g. `_EOL * 2`).  Lemmas: `dict(pairs) == {p[0]: p[1] for p in pairs}`
+  (definition of dict() over an iterable of pairs); `d = {}; for x in it: d[k(x)] = v(x)` equals `{k(x): v(x) for x in it}`
+  when the store is the only write to `d` and is unconditional in a for-loop without break/continue that dominates the
+  use (checked on the CFG, 2); `bytes(b)` of a bytes value is an equal value; `list/tuple/iter(g)` preserve the elements
+  and order of `g`.
+* R1 (body / first_line): 3 - structural equality of the field's term with the demanded term
+  `<arg>.partition(CRLFCRLF)[2]` resp. `ws-split(<arg>.partition(CRLFCRLF)[0].partition(CRLF)[0])`; 1 to locate the
+  constructions.  Lemma: `x.rstrip()/.strip()/.lstrip()` before an argument-less `.split()` does not change the tokens
+  (whitespace split ignores leading/trailing whitespace).
+* R2 (length guard, raise class): 2 (dominating branch conditions on the CFG), 4 (interval of `len(T)` from the
+  dominating `len(T) <op> k` facts, T identified by term equality - 3), 1 (try/except shape for the EAFP form).
+  Lemma: unpacking a sequence into n plain targets succeeds iff its length is n, and otherwise raises ValueError; access
+  to constant index i needs `len > i` (i >= 0) resp. `len >= -i` (i < 0).
+* R3 (start-line fields, params, headers binding): 3 - structural comparison of field terms ("item i of one and the same
+  token-sequence term", "`.path` / `.query` of one and the same `urlparse` term", "map over `parse_qsl` pairs"); 1.
+  `.encode/.decode/str(x, enc)/bytes(x, enc)` steps are peeled structurally ("re-coded only"), never executed.
+* R4 (selection of the message kind, exits): 2 (dominating conditions with polarity, enclosing conditional expressions;
+  return statements / fall-off-end from the CFG), 3 (terms of the conditions), 6 (folding of the *reference* constant
+  `b"HTTP/"` under `upper`/`lower` to compare it with the literal in the code).  Lemma: `l.upper().startswith(K.upper())`,
+  `l.lower().startswith(K.lower())`, `l[:len K].upper() == K.upper()` and `l.upper()[:len K] == K.upper()` all state
+  "l starts with K ignoring ASCII case" (bytes case mapping is per byte and length preserving).
+* R5 (header map): 3 - structural equality of the map term's iterable / key / value with
+  `rest.split(CRLF)`, `$.partition(b": ")[0]`, `$.partition(b": ")[2]`; initial mapping must be the empty display.
+* R6 (escape set): the engine's `effects.check_escape` - may-raise set over the call graph (1) with handlers / guards on
+  the CFG (2), the engine's non-raising side conditions (4) and the exception class hierarchy (6: table).
+* R7 (percent-decoding API use): 1 (import-resolved library callee names), 3 (term of the `encoding=` argument and of the
+  re-encoding steps), 6 (complete comparison with the table of latin-1 codec aliases).
+* R8 (no caching decorator): 1 (decorator list syntax).
 """
 
 from __future__ import annotations
